@@ -28,7 +28,7 @@ func guard(f func() map[string]any) (out map[string]any) {
 
 // innerMsg6 builds a client/server message with any subset of the options the builders look at
 func innerMsg6(rng *rand.Rand) *dhcpv6.Message {
-	m := &dhcpv6.Message{MessageType: dhcpv6.MessageType(pick(rng, 1, 1, 2, 2, 3, 4, 5, 6, 7, 8, 9, 10, 11, 0, 14))}
+	m := &dhcpv6.Message{MessageType: dhcpv6.MessageType(pick(rng, 1, 1, 2, 2, 3, 4, 5, 6, 7, 8, 9, 10, 11, 0, 14, 20, 21, 22, 23, 36, 37, 100, 255))} // every kind of message can be relayed
 	copy(m.TransactionID[:], randBytes(rng, 3))
 	add := func(c int, p int) {
 		if rng.Intn(100) < p {
@@ -145,6 +145,19 @@ func genC16(o *Out, rng *rand.Rand, tier string) {
 			}), "wire")
 		}
 		emit("Decap", chain, map[string]any{}, guard(func() map[string]any { return res6(dhcpv6.DecapsulateRelay(chain)) }), "decap")
+		// wrap first, complete afterwards: a relay agent encapsulates and then adds its options to the level it wrapped;
+		// what is decapsulated is that level as it is now (encapsulating stores the message, not a picture of it)
+		if i%4 == 0 {
+			l1, _ := dhcpv6.EncapsulateRelay(innerMsg6(rng), dhcpv6.MessageTypeRelayForward, rip6(rng), rip6(rng))
+			l2, _ := dhcpv6.EncapsulateRelay(l1, dhcpv6.MessageTypeRelayForward, rip6(rng), rip6(rng))
+			l3, _ := dhcpv6.EncapsulateRelay(l2, dhcpv6.MessageTypeRelayForward, rip6(rng), rip6(rng))
+			l1.AddOption(dhcpv6.OptInterfaceID(randBytes(rng, 3)))
+			l2.AddOption(&dhcpv6.OptRemoteID{EnterpriseNumber: 7, RemoteID: randBytes(rng, 4)})
+			emit("DecapIs", l3, map[string]any{"want": proj6(l2)}, guard(func() map[string]any { return res6(dhcpv6.DecapsulateRelay(l3)) }), "wrap-then-complete")
+			emit("DecapIs", l2, map[string]any{"want": proj6(l1)}, guard(func() map[string]any { return res6(dhcpv6.DecapsulateRelay(l2)) }), "wrap-then-complete")
+			reply := innerMsg6(rng)
+			emit("RelayRepl", l3, map[string]any{"msg": proj6(reply)}, guard(func() map[string]any { return res6(dhcpv6.NewRelayReplFromRelayForw(l3, reply)) }), "wrap-then-complete")
+		}
 		emit("Inner", chain, map[string]any{}, guard(func() map[string]any {
 			m, err := chain.GetInnerMessage()
 			if err != nil || m == nil {
